@@ -151,7 +151,7 @@ PROPS = {
         'lean_modules': ['C09'],
         'required_theorems': ['C09_attach_roundtrip_bloom', 'C09_attach_roundtrip_bloom_params', 'C09_attach_roundtrip_cuckoo', 'C09_attach_roundtrip_cms',
                               'C09_attach_roundtrip_hll', 'C09_attach_roundtrip_topk', 'C09_other_keys_irrelevant'],
-        'suites': ['reattach', 'redistie', 'cuckoo'],
+        'suites': ['reattach', 'redistie', 'cuckoo', 'blind'],
         'level': 'proof',
         'explanation': 'Lean: for every Redis constructor the metadata hash it writes (field names and decimal formatting transcribed) is parsed back by the matching FromKey into the same handle (parameters and keys), and attach depends on nothing but that hash; '
                        'all behaviour of a handle is a function of (parameters, keys, store). Suite `reattach` splits histories between the creating handle and handles re-attached at random points, one in a separate OS process, and compares parameters and every answer after every step.',
